@@ -269,9 +269,13 @@ func (its *WiredDatatype) callHandlers(
 // DeliverTransaction delivers the transaction if needed
 func (its *WiredDatatype) DeliverTransaction(transaction []iface.Operation) {
 
+	// the whole unit becomes pending at once: a sync that builds its pack between two appends would
+	// push the transaction header with only a part of the operations it announces
+	modelOps := make([]*model.Operation, 0, len(transaction))
 	for _, op := range transaction {
-		its.localBuffer = append(its.localBuffer, op.ToModelOperation())
+		modelOps = append(modelOps, op.ToModelOperation())
 	}
+	its.localBuffer = append(its.localBuffer, modelOps...)
 	if its.wire == nil && its.ctx.Client.SyncType != model.SyncType_REALTIME {
 		return
 	}
